@@ -365,6 +365,10 @@ where
     if machine_id > ZXST_MID_128K {
         return Err(SnapshotLoadError::MachineNotSupported.into());
     }
+    // 16K/48K and 128K snapshots can't be applied to the other model
+    if (machine_id == ZXST_MID_128K) != (emulator.settings.machine == ZXMachine::Sinclair128K) {
+        return Err(SnapshotLoadError::MachineNotSupported.into());
+    }
 
     // ZXST Block Header
     asset.seek(SeekFrom::Start(cursor_pos))?;
